@@ -31,10 +31,50 @@ def plan(tier, seed):
     n = 8
     for s in range(n):
         jobs.append({"variant": "c" if s % 2 else "py", "part": "matrix", "shard": s, "nshards": n, "params": {}})
+    ns = 16 if tier == "thorough" else 2
+    for s in range(ns):
+        jobs.append({"variant": "c" if s % 2 else "py", "part": "shapes", "shard": s, "nshards": ns, "params": {"stride": 1 if tier == "thorough" else 25}})
     if tier == "thorough":
         for s in range(16):
             jobs.append({"variant": "c" if s % 2 else "py", "part": "allports", "shard": s, "nshards": 16, "params": {}})
     return jobs
+
+
+def run_shapes(ctx):
+    """The port model over the cross product of component shapes (userinfo incl. empty / escaped, host kinds incl. trailing dot,
+    pct-encoded, IDN; paths, queries, fragments), through the constructor in both modes, build() and rebuilding modifiers."""
+    from yarl import URL
+    from ..shapes import iter_shapes, DEFAULT as SD
+
+    stride = ctx.params["stride"] * ctx.nshards
+    for lab, text, kw in iter_shapes(stride, ctx.shard * ctx.params["stride"] + ctx.seed % ctx.params["stride"]):
+        sch, ul, hl, pl = lab[0].lower(), lab[1], lab[2], lab[3]
+        if hl == "empty":
+            continue
+        d = SD.get(sch)
+        explicit = {"none": None, "zero": 0, "default": d, "default-zeros": d, "other": 8080, "max": 65535}[pl]
+        for mode, enc in (("text", False), ("text-encoded", True)):
+            if enc and hl in ("idn", "upper"):
+                continue
+            u = guarded(URL, text, encoded=enc)
+            case = {"route": mode, "s": text}
+            if is_exc(u):
+                ctx.ev((mode, "shape", "exc"))
+                ctx.fail("valid_rejected", case, f"{u!r}")
+                continue
+            if verify(ctx, mode, case, u, sch, explicit, hl, (mode, "shape", sch, ul, hl, pl)) and not enc and lab[4] in ("", "/a/b"):
+                survives(ctx, case, u, sch, explicit, hl, ("survives-shape", sch, ul, hl, pl))
+        if kw is not None:
+            u = guarded(lambda: URL.build(**kw))
+            case = {"route": "build", "kw": {k: repr(v) for k, v in kw.items()}}
+            if is_exc(u):
+                if u.type == "ValueError" and kw.get("path") and not kw["path"].startswith("/"):
+                    continue
+                ctx.ev(("build", "shape", "exc"))
+                ctx.fail("valid_rejected", case, f"{u!r}")
+                continue
+            verify(ctx, "build", case, u, sch, _build_exp(u, sch, explicit), hl, ("build", "shape", sch, ul, hl, pl))
+    ctx.sample({"route": "text", "s": "ws://@example.com.:080/a%20b/c%2Fd?k=%26%3D%2B&x=+y#f"})
 
 
 def run_allports(ctx):
@@ -147,6 +187,8 @@ def run(ctx):
 
     if ctx.part == "allports":
         return run_allports(ctx)
+    if ctx.part == "shapes":
+        return run_shapes(ctx)
     if ctx.part == "replay":
         ctx.params["only"] = ctx.params["replay"]["case"]
     i = 0
